@@ -293,6 +293,10 @@ def run(ctx):
     if n_fl == 0:
         ctx.ok('C03.2-float-acceptance', 'decoder', 'no is_normal / is_subnormal / classify on decoded floats')
 
+    from ..families import check_error_swallow as _swallow
+    ctx.rule('C03.5-errors-surface', 'in the functions of this property that can themselves report failure, the Result of one of the repository\'s own fallible functions is never turned into "nothing" or a default (ok(), unwrap_or*, map_or*): an error must surface as an error, not as a value the callee never produced; a rule about what must not be there (exercised on the fixture every run)', floor=0)
+    _swallow(ctx, P, 'C03.5-errors-surface', ('erltf::decoder::',))
+
 
 def read_order(PB):
     """block of every read primitive / sub-parser call in the order they occur on success paths"""
